@@ -302,6 +302,18 @@ func c02Special() []refTree {
 		plans := append([]refPlan{{Position: "components." + k.coll + ".Site", Kind: k.kind, Form: "whole-file", Shape: "whole-file-with-nested-relative-refs", Ref: "far/away/t.json", Marker: marker}}, inner...)
 		mk(rootW, files, plans)
 	}
+	// whole-file callbacks that refer to themselves, directly and through a second file (loading must terminate)
+	cbFile := func(marker, again string) gen.S {
+		return gen.S{"{$request.body#/u}": gen.S{"summary": marker, "post": gen.S{"responses": gen.S{"200": gen.S{"description": "cb"}}, "callbacks": gen.S{"again": gen.S{"$ref": again}}}}}
+	}
+	rootCB := refRootSkeleton()
+	dig(rootCB, "components", "callbacks")["Site"] = gen.S{"$ref": "cbs/self.json"}
+	mk(rootCB, map[string]gen.S{"w/cbs/self.json": cbFile("MARKCBSELF", "self.json")}, []refPlan{
+		{Position: "components.callbacks.Site", Kind: "callback", Form: "whole-file", Shape: "whole-file-callback-self-cycle", Ref: "cbs/self.json", Marker: "MARKCBSELF"}})
+	rootCB2 := refRootSkeleton()
+	dig(rootCB2, "components", "callbacks")["Site"] = gen.S{"$ref": "cbs/one.json"}
+	mk(rootCB2, map[string]gen.S{"w/cbs/one.json": cbFile("MARKCBONE", "two.json"), "w/cbs/two.json": cbFile("MARKCBTWO", "one.json")}, []refPlan{
+		{Position: "components.callbacks.Site", Kind: "callback", Form: "whole-file", Shape: "whole-file-callback-mutual-cycle", Ref: "cbs/one.json", Marker: "MARKCBONE"}})
 	// JSON pointer escapes in component names
 	root5 := refRootSkeleton()
 	dig(root5, "components", "schemas")["rate~1min"] = gen.S{"type": "object", "title": "MARKTILDE1"}
@@ -345,6 +357,17 @@ func c02Negative() []refTree {
 		libDoc := gen.S{"openapi": "3.0.3", "info": gen.S{"title": "lib", "version": "1"}, "paths": gen.S{}, "components": gen.S{coll: gen.S{"Other": targetObject(pos.kind, "MARKOTHER")}}}
 		out = append(out, refTree{Root: "w/root.json", Files: map[string]string{"w/root.json": mustJSON(root), "w/lib.json": mustJSON(libDoc)}, External: true,
 			Plans: []refPlan{{Position: pos.name, Kind: pos.kind, Form: "fragment", Shape: "direct", Ref: "lib.json#/components/" + coll + "/Missing", Fails: "missing-fragment"}}})
+		// pointer tokens that are only the beginning of a field or collection name designate nothing
+		for _, bad := range []string{"#/component/" + coll + "/Other", "#/components/" + strings.TrimSuffix(coll, "s") + "/Other", "#/componen/" + coll + "/Other", "#/components/" + coll + "/Othe"} {
+			if coll == "" {
+				break
+			}
+			root = refRootSkeleton()
+			dig(root, "components", coll)["Other"] = targetObject(pos.kind, "MARKOTHER")
+			pos.plant(root, gen.S{"$ref": bad})
+			out = append(out, refTree{Root: "w/root.json", Files: map[string]string{"w/root.json": mustJSON(root)},
+				Plans: []refPlan{{Position: pos.name, Kind: pos.kind, Form: "internal", Shape: "direct", Ref: bad, Fails: "truncated-pointer-token"}}})
+		}
 		// a pointer that ends on a container map instead of on one object
 		for _, container := range []string{"#/components/" + coll, "#/components", "#/paths", "#/components/schemas/Holder/properties"} {
 			root = refRootSkeleton()
